@@ -87,9 +87,9 @@ pub(super) fn exec_merge_create_node(
     props: &[(String, PropertyValue)],
     created_count: &mut u32,
 ) -> Result<InternalNodeId> {
-    let external_id = ExternalId::from(
-        *created_count as u64 + chrono::Utc::now().timestamp_nanos_opt().unwrap_or(0) as u64,
-    );
+    let external_id = txn.fresh_external_id(ExternalId::from((*created_count as u64).wrapping_add(
+        chrono::Utc::now().timestamp_nanos_opt().unwrap_or(0) as u64,
+    )));
     let label_id = if let Some(l) = labels.first() {
         txn.get_or_create_label_id(l)?
     } else {
